@@ -7,7 +7,7 @@ use crate::{
     expr::Expr,
     parser::{
         parse_file_internal, CodePoint, DataDefine, Item, NextItem, ParseContext, Segment,
-        SegmentType, MAX_INCLUDE_DEPTH,
+        SegmentType, MAX_INCLUDED_FILES, MAX_INCLUDE_DEPTH,
     },
 };
 
@@ -110,6 +110,7 @@ impl Directive {
             macros,
             messages,
             include_depth,
+            included_files,
         } = context;
 
         match self {
@@ -269,6 +270,13 @@ impl Directive {
                                 point
                             );
                         }
+                        if included_files.get() >= MAX_INCLUDED_FILES {
+                            bail!(
+                                "too many files to include (files that include each other again and again?), {}",
+                                point
+                            );
+                        }
+                        included_files.set(included_files.get() + 1);
                         let context = ParseContext {
                             current_path: PathBuf::from(include),
                             include_paths: include_paths.clone(),
@@ -277,6 +285,7 @@ impl Directive {
                             macros: macros.clone(),
                             messages: messages.clone(),
                             include_depth: include_depth + 1,
+                            included_files: included_files.clone(),
                         };
                         parse_file_internal(&context)?;
                         // directories added by .includepath inside the included file stay known here
